@@ -1,7 +1,7 @@
 """Per-property exploration: which harness runs, what is compared, which oracle clauses count."""
 import os, sys, json, random, glob, collections, multiprocessing, time
 VERIF = os.path.dirname(os.path.dirname(os.path.abspath(__file__)))
-from harness import common, l1, store_oracle, tbuffer
+from harness import common, l1, store_oracle, tbuffer, storeq
 
 # fields of a row whose disagreement (model vs implementation) concerns each store-level property
 L1_FIELDS = {
@@ -121,6 +121,41 @@ def run_l1(pid, tier, seed):
 
 
 
+def _q_worker(args):
+    n, seed = args
+    rng = random.Random(seed)
+    cases = [storeq.gen_case(rng, rng.randrange(8, 70)) for _ in range(n)]
+    out = dict(evals=0, sigs=set(), dis=[], viol=[], samples=[])
+    for r in storeq.run_batch(cases):
+        c = r["case"]
+        out["evals"] += 1
+        out["sigs"].add((c["cap"], tuple(o[0] for o in r["micro"])))
+        if r["dis"]:
+            j, a, b = r["dis"]
+            out["dis"].append(dict(case=c, op_index=j, impl=a, model=b))
+        v = storeq.oracle(c, r["micro"], r["impl"])
+        if v:
+            out["viol"].append(dict(**{"class": "storeq"}, message=v[0][1], op_index=v[0][0], case=c))
+        if not out["samples"]:
+            out["samples"].append(dict(store="PriorityReqStore", cap=c["cap"], ops=c["ops"][:25]))
+    out["sigs"] = len(out["sigs"])
+    return out
+
+
+def run_c05(pid, tier, seed):
+    res = run_l1(pid, tier, seed)
+    n = 600 if tier == "quick" else 60000
+    shards = 2 if tier == "quick" else 16
+    with multiprocessing.Pool(shards) as pool:
+        outs = pool.map(_q_worker, [(n // shards, seed * 31 + k) for k in range(shards)])
+    for o in outs:
+        res["evaluations"] += o["evals"]; res["traces"] += o["evals"]; res["distinct_nontrivial"] += o["sigs"]
+        res["disagreements"] += o["dis"][:2]; res["violations"] += o["viol"][:2]; res["samples"] += o["samples"][:1]
+    res["rule"] += "; plus PriorityReqStore histories (put/get requests with priorities, kernel pops, cancels of waiting requests)"
+    res["domain"] += ", PriorityReqStore"
+    return res
+
+
 # ------------------------------------------------------------------ C11 (timed Buffer edge)
 def _c11_worker(args):
     n, seed, corpus = args
@@ -196,7 +231,7 @@ SPECS = {
     "C01": dict(run=run_l1, trusted=L1_TRUST),
     "C02": dict(run=run_l1, trusted=L1_TRUST),
     "C04": dict(run=run_l1, trusted=L1_TRUST),
-    "C05": dict(run=run_l1, trusted=L1_TRUST),
+    "C05": dict(run=run_c05, trusted=L1_TRUST),
     "C06": dict(run=run_l1, trusted=L1_TRUST),
     "C07": dict(run=run_l1, trusted=L1_TRUST),
     "C11": dict(run=run_c11, trusted=["modelled, not verified: Buffer / BufferStore classes, SimPy kernel (its contract 'an event scheduled "
